@@ -31,7 +31,7 @@ import (
 
 func init() {
 	mon.RegisterCfg("C07", mon.Config{
-		Rule: "mutated: generated GSUB/GPOS/GDEF tables are encoded, mutated at the byte level (0-4 mutations), re-read with gtab.Read/gdef.Read and applied to 4 sequences of length 0..200 over the full glyph id range (biased to glyphs the tables mention); " +
+		Rule: "mutated: generated GSUB/GPOS/GDEF tables (alphabets with and without glyph 0, GDEF with glyph class values beyond 4, up to 120 mark glyph sets, sets of up to 2300 glyphs) are encoded, mutated at the byte level (0-4 mutations), re-read with gtab.Read/gdef.Read and applied to 4 sequences of length 0..200 over the full glyph id range (biased to glyphs the tables mention); " +
 			"hostile: 17 named hostile shapes x 6 contextual formats built as structures, encoded, re-read (the shape must survive the round trip) and applied; the structure itself is applied as well; hostile-bytes: 9 hostile GSUB shapes (incl. aliasing (type, format) pairs and 5 subtable kinds x 8 inconsistent coverage tables) written byte by byte from the specification (no library encoder involved), read and applied; " +
 			"history: one Context reused for 1..30 calls alternating benign and budget-exhausting inputs, each result compared with a fresh Context; layouter: sfnt.Layouter reused over several strings vs a fresh Layouter; " +
 			"evaluations = Apply/Layout calls judged; distinct = distinct (table bytes, sequence) pairs",
@@ -429,6 +429,41 @@ func c07run(k *mon.Case, st *c07stats, t *c07tables, lookups []gtab.LookupIndex,
 	}
 }
 
+// c07alphabetClasses records alphabet and GDEF shapes of a case whose tables
+// were applied: glyph 0 among the glyphs of the lookups, glyph class values
+// beyond the four defined ones, many or large mark glyph sets (gd is the GDEF
+// table as the reader delivered it; nil when the case runs without one).
+func c07alphabetClasses(k *mon.Case, a *otlmini.Alphabet, gd *gdef.Table, prefix string) {
+	for _, g := range a.In {
+		if g == 0 {
+			k.Class(prefix + "glyph-0-in-input-alphabet")
+		}
+	}
+	for _, g := range a.Out {
+		if g == 0 {
+			k.Class(prefix + "glyph-0-in-output-alphabet")
+		}
+	}
+	if gd == nil {
+		return
+	}
+	for _, g := range c06sortedClassKeys(gd.GlyphClass) {
+		if gd.GlyphClass[g] > 4 {
+			k.Class(prefix + "gdef-glyph-class>4")
+			break
+		}
+	}
+	if len(gd.MarkGlyphSets) >= 20 {
+		k.Class(prefix + "gdef->=20-mark-glyph-sets")
+	}
+	for _, set := range gd.MarkGlyphSets {
+		if len(set) >= 300 {
+			k.Class(prefix + "gdef-mark-glyph-set->=300-glyphs")
+			break
+		}
+	}
+}
+
 func c07lookupOrder(r *rand.Rand, n int) []gtab.LookupIndex {
 	var out []gtab.LookupIndex
 	switch r.IntN(4) {
@@ -530,6 +565,9 @@ func runC07(c *mon.Ctx) {
 			k.Distinct(data, gdData, s)
 		}
 		c07flush(k, st, "mutated:")
+		if st.applied > 0 {
+			c07alphabetClasses(k, alpha, gd, "mutated:")
+		}
 		k.Sample(map[string]any{"primary": kind.String(), "mutations": nMut, "table-bytes": len(data), "lookups": len(ll), "order": fmt.Sprint(lookups), "applied": st.applied})
 	})
 
@@ -684,5 +722,7 @@ func runC07(c *mon.Ctx) {
 	c.Require("history-with-budget-exhaustion-followed-by-further-calls",
 		"delivered-by-reader:filtering-set-oob", "delivered-by-reader:empty-replacement:gsub2.1",
 		"delivered-by-reader:recursive-lookups", "delivered-by-reader:nesting-depth>=64",
-		"mutated:apply-calls", "mutated:1-mutations-accepted", "mutated:4-mutations-accepted", "layouter:layout-calls")
+		"mutated:apply-calls", "mutated:1-mutations-accepted", "mutated:4-mutations-accepted", "layouter:layout-calls",
+		"mutated:glyph-0-in-input-alphabet", "mutated:glyph-0-in-output-alphabet", "mutated:gdef-glyph-class>4",
+		"mutated:gdef->=20-mark-glyph-sets", "mutated:gdef-mark-glyph-set->=300-glyphs")
 }
